@@ -1283,6 +1283,14 @@ func (w *poolWorld) doDone(i int, outcome string) {
 		di.Err = sdeErr
 	case outcome == "nr":
 	}
+	// the byte flags gRPC reports: a call that got a reply or a status from the server has sent and
+	// received bytes; "nr" (ended without a reply message) has only sent
+	switch {
+	case outcome == "ok" || strings.HasPrefix(outcome, "ok:") || outcome == "sde":
+		di.BytesSent, di.BytesReceived = true, true
+	case outcome == "nr":
+		di.BytesSent = true
+	}
 	if c.gctx != nil && replyKeys != nil {
 		c.gctx.replyMsg = &replyMsg{Key: replyKeys}
 	} else if c.gctx != nil && outcome == "ok" && c.cmd != "bind" {
